@@ -26,6 +26,9 @@ func (e *Enc) calleeName(c *ssa.CallCommon) (name string, kind string, fn *ssa.F
 		if f.Blocks != nil && e.p.isLocalFn(f) {
 			return e.p.FuncName(f), "func", f
 		}
+		if n := externName(f); externAlias[n] != "" {
+			return externAlias[n], "extern", f
+		}
 		return externName(f), "extern", f
 	case *ssa.MakeClosure:
 		f := unwrapSynthetic(v.Fn.(*ssa.Function))
@@ -82,6 +85,8 @@ func (e *Enc) assignKeys(fc *FuncContract, item string) []string {
 	e.note("cannot interpret assigns item %q of %s", item, fc.Name)
 	return []string{"*"}
 }
+
+var externAlias = map[string]string{"strings.ReplaceAll": "strings.Replace"}
 
 // ---------- calls ----------
 
@@ -227,6 +232,12 @@ func (e *Enc) encodeCall1(c *ssa.CallCommon, instr ssa.Instruction, pos token.Po
 		_ = mc
 	}
 	sig := c.Signature()
+	// library functions that are another one with an argument fixed are treated as that one, so that contracts do
+	// not depend on which spelling the code uses: strings.ReplaceAll(s, a, b) is strings.Replace(s, a, b, -1)
+	if kind == "extern" && fn != nil && externName(fn) == "strings.ReplaceAll" {
+		args = append(args, Val{T: IntLit(-1), Typ: types.Typ[types.Int]})
+		argTypes = append(argTypes, types.Typ[types.Int])
+	}
 	if allowed, ok := e.p.Contracts.Callers[name]; ok {
 		okc := false
 		for _, a := range allowed {
